@@ -27,8 +27,8 @@ ASSUMPTIONS = ['subclass filters are BSD subclasses only (statement); callstack 
 
 MAP_UPDATERS = {'TRACE_DATA_NEWTHREAD', 'TRACE_DATA_EXEC', 'TRACE_STRING_NEWTHREAD', 'TRACE_STRING_EXEC',
                 'TRACE_DATA_THREAD_TERMINATE_PID', 'PERF_THD_Data'}
-BSD_SUBCLASSES = [0x040c, 0x040e, 0x0401]
-CLASSES = [1, 3, 4, 7, 0x1f, 0x25, 0x35, 0x42]
+BSD_SUBCLASSES = [0x040c, 0x040c, 0x040e, 0x0401]
+CLASSES = [1, 3, 4, 4, 7, 0x1f, 0x1f, 0x25, 0x35, 0x42]
 
 
 def build_file(spec):
@@ -250,7 +250,12 @@ def strategy():
     special = st.one_of(
         st.tuples(st.just('tracesingle'), st.just('TRACE_DATA_THREAD_TERMINATE'), st.sampled_from([0, 4, 7, 11, 14, 18, 21]), st.integers(0, 3), st.integers(0, 15)),
         st.tuples(st.just('threadname'), st.just(''), S.u64, st.integers(0, 3), st.integers(0, 15)),
-        st.tuples(st.just('globalstring'), st.just(''), S.u64, st.integers(0, 3), st.integers(0, 15))).map(list)
+        st.tuples(st.just('globalstring'), st.just(''), S.u64, st.integers(0, 3), st.integers(0, 15)),
+        # operations whose decoding needs a helper class: path-taking syscalls with lookups, dyld ops with announced strings
+        st.tuples(st.just('call'), st.sampled_from(['BSC_open', 'BSC_rename', 'BSC_stat64', 'BSC_openat', 'BSC_linkat', 'BSC_access', 'BSC_unlink']),
+                  S.u64, st.integers(1, 2), st.integers(0, 7)),
+        st.tuples(st.just('call'), st.sampled_from(['BSC_open', 'BSC_rename', 'BSC_mkdir']), S.u64, st.integers(1, 2), st.integers(0, 7)),
+        st.tuples(st.just('dyld'), st.sampled_from(sorted(SC.DYLD_STRING_OPS)), st.integers(5000, 2 ** 40), st.integers(0, 3), st.sampled_from([0, 2, 4]))).map(list)
     op = st.one_of(SC.op_strategy(), SC.op_strategy(), special)
     programs = st.lists(st.lists(op, min_size=1, max_size=5), min_size=2, max_size=3)
     fspec = st.fixed_dictionaries({'programs': programs, 'schedule': st.lists(st.integers(0, 2), max_size=60),
